@@ -36,6 +36,8 @@ def dist_specs(draw, kinds=KINDS, min_events=1, max_events=6, normalised=None, p
         w = [draw(st.integers(-8, 8)) for _ in range(k)]
         return {"kind": kind, "events": events, "w": w, "den": 2}
     w = [draw(st.integers(0, 5)) for _ in range(k)]
+    if k >= 2 and draw(st.integers(0, 7)) == 0:
+        w[draw(st.integers(0, k - 1))] = 10 ** draw(st.sampled_from([9, 12]))  # probabilities ~1e-9..1e-12 elsewhere
     if positive_total and not any(w):
         w[draw(st.integers(0, k - 1))] = 1
     norm = draw(st.booleans()) if normalised is None else normalised
@@ -111,6 +113,7 @@ def op_cases(draw, tier="quick"):
         "p": p, "q": q,
         "proj": [draw(st.integers(0, 2)) for _ in range(n)],
         "kern": [[draw(st.integers(0, 3)) for _ in range(3)] for _ in range(n)],
+        "kern_kind": [draw(st.sampled_from([0, 0, 1, 2, 3, 4])) for _ in range(n)],
         "lik": [draw(st.integers(0, len(LIKS) - 1)) for _ in range(n)],
         "real": [draw(st.integers(-5, 5)) for _ in range(n)],
         "w1": draw(st.sampled_from([0.25, 0.5, 1, 2, 0.75])), "w2": draw(st.sampled_from([0.25, 0.5, 1, 3])),
@@ -129,8 +132,32 @@ def funcs(case, support):
         if not any(w):
             w[0] = 1
         return w
-    kern_ref = lambda e: {("c", j): F(w, sum(kw(e))) for j, w in enumerate(kw(e))}
-    kern = lambda e: DictDistribution({("c", j): w / sum(kw(e)) for j, w in enumerate(kw(e))})
+    kinds = case.get("kern_kind", [0] * n)
+
+    def kern_ref(e):
+        k = kinds[ix[e] % n]
+        w = kw(e)
+        j0 = [j for j, x in enumerate(w) if x > 0][0]
+        if k == 1:      # point mass
+            return {("c", j0): F(1)}
+        if k == 2:      # one-point, unnormalised
+            return {("c", j0): F(1, 2)}
+        if k == 3:      # one-point, zero mass
+            return {("c", j0): F(0)}
+        if k == 4:      # scaled multi-point
+            return {("c", j): F(x, 2 * sum(w)) for j, x in enumerate(w)}
+        return {("c", j): F(x, sum(w)) for j, x in enumerate(w)}
+
+    def kern(e):
+        from msdm.core.distributions import DeterministicDistribution
+        k = kinds[ix[e] % n]
+        r = kern_ref(e)
+        if k == 1:
+            return DeterministicDistribution(list(r)[0])
+        if k == 4:
+            w = kw(e)
+            return 0.5 * DictDistribution({("c", j): x / sum(w) for j, x in enumerate(w)})
+        return DictDistribution({y: float(q) for y, q in r.items()})
     lik_ref = lambda e: LIKS[case["lik"][ix[e] % n]]
 
     def lik(e):
@@ -151,7 +178,8 @@ def prop_ops(case, ctx):
     # marginalise
     m = ctx.call("C11.marginalize.raises", p.marginalize, proj)
     compare(ctx, "C11.marginalize", m, RP.marginalize(rp, proj), tol, "marginalize")
-    ctx.check(abs(sum(fl(x) for x in dict(m.items()).values()) - fl(sum(rp.values()))) <= tol * 10,
+    mscale = max(1.0, fl(sum(abs(x) for x in rp.values())))
+    ctx.check(abs(sum(fl(x) for x in dict(m.items()).values()) - fl(sum(rp.values()))) <= tol * 10 * mscale,
               "C11.marginalize.preserves_mass")
     # chain
     c = ctx.call("C11.chain.raises", p.chain, kern)
@@ -179,7 +207,7 @@ def prop_ops(case, ctx):
         ctx.event("conjunction_zero_mass_skipped")
     # expectation
     ex = ctx.call("C11.expectation.raises", p.expectation, real)
-    ctx.check(abs(fl(ex) - fl(RP.expectation(rp, real))) <= tol * 10, "C11.expectation",
+    ctx.check(abs(fl(ex) - fl(RP.expectation(rp, real))) <= tol * 10 * mscale * 5, "C11.expectation",
               lambda: f"{ex} expected {RP.expectation(rp, real)}")
     # normalise
     rn = RP.normalize(rp)
@@ -216,6 +244,7 @@ def pipeline_cases(draw, tier="quick"):
             op["t"] = [draw(st.integers(0, 2)) for _ in range(5)]
         elif kind == "chain":
             op["t"] = [[draw(st.integers(0, 3)) for _ in range(2)] for _ in range(4)]
+            op["kk"] = [draw(st.sampled_from([0, 0, 1, 2, 3])) for _ in range(4)]
         elif kind == "cond":
             op["t"] = [draw(st.integers(0, len(LIKS) - 1)) for _ in range(5)]
         elif kind in ("joint",):
@@ -257,9 +286,21 @@ def prop_pipeline(case, ctx):
                 if not any(w):
                     w[0] = 1
                 return w
-            cur = ctx.call(name + ".raises", cur.chain,
-                           lambda e: DictDistribution({("c", j): w / sum(ws(e)) for j, w in enumerate(ws(e))}))
-            ref = RP.chain(ref, lambda e: {("c", j): F(w, sum(ws(e))) for j, w in enumerate(ws(e))})
+            kk = op.get("kk", [0, 0, 0, 0])
+
+            def kref(e):
+                w = ws(e)
+                kind = kk[ix[e] % len(kk)]
+                j0 = [j for j, x in enumerate(w) if x > 0][0]
+                if kind == 1:
+                    return {("c", j0): F(1)}
+                if kind == 2:
+                    return {("c", j0): F(1, 2)}
+                if kind == 3:
+                    return {("c", j0): F(0)}
+                return {("c", j): F(x, sum(w)) for j, x in enumerate(w)}
+            cur = ctx.call(name + ".raises", cur.chain, lambda e: DictDistribution({y: float(q) for y, q in kref(e).items()}))
+            ref = RP.chain(ref, kref)
         elif k == "cond":
             lr = lambda e: LIKS[op["t"][ix[e] % len(op["t"])]]
             r2 = RP.condition(ref, lr)
@@ -346,7 +387,7 @@ class OwnedRandom(random.Random):
 def sampling_cases(draw, tier="quick"):
     d = draw(dist_specs(normalised=True))
     tot = max(sum(d["w"]), 1) if d["kind"] not in ("softmax",) else 1
-    boundaries = [c / tot for c in range(0, tot)] if d["kind"] in ("dict", "table") else [0.0, 0.5]
+    boundaries = [c / tot for c in range(0, tot)] if d["kind"] in ("dict", "table") and tot <= 64 else [0.0, 0.5]
     special = [0.0, 1 - 2 ** -53, 0.5, 2 ** -53] + boundaries
     stream = draw(st.lists(st.one_of(st.sampled_from(special),
                                      st.floats(0, 1, exclude_max=True, allow_nan=False)), min_size=1, max_size=12))
